@@ -2,7 +2,7 @@
 import os, json
 from dataclasses import dataclass, field
 from .common import *
-from . import stream_iter, stream_segment, oracle
+from . import stream_iter, stream_segment, stream_count, oracle
 
 TRUSTED_BASE = [
     "Lean 4.33.0 kernel; Mathlib v4.33.0 (imported only by PsSpec/PsProofs/PsProps)",
@@ -41,6 +41,9 @@ class Prop:
 # --------------------------------------------------------------------------------------------
 
 def _iter_filter(prop, scripts):
+    if prop == "C10":
+        keep = ("top-", "big-", "mag-")
+        return [s for s in scripts if s[0].startswith(keep)]
     if prop == "C01":
         keep = ("small-fwd", "small-long-fwd", "mag-fwd", "big-fwd", "past-hint", "top-", "seam-fwd", "fwd-")
     elif prop == "C02":
@@ -166,6 +169,54 @@ def segment_witness(ctx, obligations_failed, tie_fail):
     return None
 
 
+# --------------------------------------------------------------------------------------------
+# count stream (PrimeSieve / ParallelSieve counters, pieces)
+# --------------------------------------------------------------------------------------------
+
+def count_tie(ctx, tie_fail, tier=None, tag="count"):
+    tier = tier or ctx.tier
+    r = rng("count-" + ctx.prop + tag)
+    ops = stream_count.gen_ops(tier, r)
+    res = stream_count.run_stream(ctx.harness, ctx.model, ops, ctx.workdir, tag)
+    wrong, diffs, cov = stream_count.analyse(ops, res)
+    cov["rule"] = ("cases = ParallelSieve::sieve(start, stop, all six COUNT flags) with a sieve size, a thread count and "
+                   "a piece-length override; every result is checked against the harness oracle and (counters, thread "
+                   "count, piece length, list of pieces) against the Lean model; non-trivial = some counter is non-zero; "
+                   "distinct by the full operation")
+    cov["samples"] = [{"partition": l, "op": o} for l, o in ops[:2]] + [{"trace_line": x[:300]} for x in res["impl_lines"][:2]]
+    if res["harness_rc"] != 0:
+        bad = None
+        for label, o in ops:
+            r1 = stream_count.run_stream(ctx.harness, ctx.model, [(label, o)], ctx.workdir, "bisect")
+            if r1["harness_rc"] != 0:
+                bad = o
+                break
+        tie_fail.append(("count", "harness aborted (sanitizer / assertion / crash): " + res["harness_err"][-600:],
+                         {"kind": "impl-crash", "op": bad, "stderr": res["harness_err"][-3000:], "key": f"crash:{bad}"} if bad else None))
+        return cov
+    if res["model_rc"] != 0:
+        tie_fail.append(("count", "model driver failed: " + res["model_err"], None))
+        return cov
+    for o, obs in wrong[:1]:
+        tie_fail.append(("count", f"counters differ from the number of primes / constellations in the interval: {o} -> {obs[:300]}",
+                         {"kind": "impl-vs-spec", "op": o, "observed": obs[:600], "key": "count:" + o}))
+    if not wrong and diffs:
+        o, a, b = diffs[0]
+        tie_fail.append(("count", f"model and implementation differ for `{o}`: impl `{a[:400]}` model `{b[:400]}`", None))
+    cov["disagreements_checked"] = len(wrong) + len(diffs)
+    return cov
+
+
+def count_witness(ctx, obligations_failed, tie_fail):
+    for k in range(2):
+        tf = []
+        count_tie(ctx, tf, tier="quick", tag=f"cntwit{k}")
+        hit = [t for t in tf if t[2] is not None]
+        if hit:
+            return hit[0]
+    return None
+
+
 def combine(*fs):
     """tie function running several streams and merging their coverage"""
     def tie(ctx, tie_fail):
@@ -194,6 +245,10 @@ def combine_witness(*fs):
 
 def replay(ctx, data):
     """re-run a replay file; returns {'fails': bool, ...}"""
+    if data.get("stream") == "count" and data.get("op"):
+        res = stream_count.run_stream(ctx.harness, ctx.model, [("replay", data["op"])], ctx.workdir, "replay")
+        wrong, diffs, _ = stream_count.analyse([("replay", data["op"])], res)
+        return {"fails": bool(wrong) or res["harness_rc"] != 0, "observed": res["impl_lines"][-1:], "stderr": res["harness_err"][-1500:]}
     if data.get("stream") == "segment" and data.get("op"):
         res = stream_segment.run_stream(ctx.harness, ctx.model, [("replay", data["op"])], ctx.workdir, "replay")
         content, geom, _ = stream_segment.analyse([("replay", data["op"])], res)
@@ -213,6 +268,13 @@ ITER_ASSUME = [
     "PrimeGenerator is tied to it by the iter stream (block contents, sizes, empty/overflow outcomes)",
     "Env.isPrime decides Nat.Prime (hypothesis EnvOK); the driver uses deterministic Miller-Rabin",
     "std::sqrt/std::log sub-expressions are arbitrary functions in the theorems (Oracle), IEEE doubles in the driver",
+]
+
+COUNT_ASSUME = [
+    "counting is proved over an ideal segmented sieve (bit = prime and in range); the real Erat/EratSmall/Medium/Big "
+    "cross-off is tied to it by the segment and count streams (every bit / every counter checked)",
+    "std::atomic fetch_add hands out each piece index exactly once (C++ memory model); data-race freedom of the "
+    "real threads is outside the model",
 ]
 
 REGISTRY = {
@@ -240,4 +302,25 @@ REGISTRY = {
         tie=iter_tie, witness=iter_witness, assumptions=ITER_ASSUME,
         undischarged=["IGen ~ PrimeGenerator (sieve chain, DESIGN section 9 Tier B)"],
         explanation="simulation between the iterator model and the abstract cursor for every history"),
+    "C09": Prop(
+        targets=["PsProps.C09"],
+        theorems=[("PsProps.C09", "Ps.Props.C09_piece_exact"), ("PsProps.C09", "Ps.Props.C09_tiling"),
+                  ("PsProps.C09", "Ps.Props.C09_threadDistance_shape"),
+                  ("PsProps.C09", "Ps.Props.C09_primes_additive"), ("PsProps.C09", "Ps.Props.C09_tuplets_additive"),
+                  ("PsProps.C09", "Ps.Props.C09_no_split"), ("PsProps.C09", "Ps.Props.C09_schedule_independent")],
+        tie=combine(("count", count_tie)), witness=combine_witness(count_witness), assumptions=COUNT_ASSUME,
+        undischarged=["data-race freedom of the real worker threads (not expressible in the model)"],
+        explanation="pieces tile [start, stop], interior boundaries are = 2 mod 30 and >= 32, no constellation straddles "
+                    "one, per-piece counts add up to the interval's count, for every assignment of pieces to workers"),
+    "C10": Prop(
+        targets=["PsProps.C10"],
+        theorems=[("PsProps.C10", "Ps.Props.C10_maxPrime64_prime"), ("PsProps.C10", "Ps.Props.C10_no_prime_above"),
+                  ("PsProps.C10", "Ps.Props.C10_forward_values_le_max"), ("PsProps.C10", "Ps.Props.C10_iterator_top"),
+                  ("PsProps.C10", "Ps.Props.C10_checkedAdd"), ("PsProps.C10", "Ps.Props.C10_checkedSub")],
+        tie=combine(("iter", iter_tie), ("count", count_tie), ("segment", segment_tie)),
+        witness=combine_witness(iter_witness, count_witness, segment_witness),
+        assumptions=ITER_ASSUME + COUNT_ASSUME,
+        undischarged=["no-wrap lemmas for Wheel::addSievingPrime / cross-off index arithmetic (sieve chain, Tier B)"],
+        explanation="18446744073709551557 is prime and nothing above it below 2^64 is (Lucas certificate + 58 explicit "
+                    "factors); the iterator returns it and then reports primesieve_error forever; checkedAdd/checkedSub saturate"),
 }
